@@ -16,7 +16,7 @@ CLAIMS = {
 
  'C10': dict(level='model_checking', design='5 C10, 4.1',
    technique='TLC enumeration of all API call sequences of the DKG state-machine spec (DKGApi.tla), each replayed on a real instance with the prescribed result classes; metamorphic non-interference replay',
-   text='DKGApi.tla states the documented state machine (phase, timeouts taken, handler bodies of DKGNode.tla) and TLC checks its rules as invariants while enumerating every call sequence up to a length bound behind forced prefixes; every sequence is executed on a real instance of each protocol and role, the class of every call and Running() must be the prescribed ones, and the sequence with its rejected calls removed must be observationally identical; End on runs whose group key is the identity (reference dealer with a zero constant term, or cancelling the real participant's polynomial) must fail and leave the instance not running.',
+   text='DKGApi.tla states the documented state machine (phase, timeouts taken, handler bodies of DKGNode.tla) and TLC checks its rules as invariants while enumerating every call sequence up to a length bound behind forced prefixes; every sequence is executed on a real instance of each protocol and role, the class of every call and Running() must be the prescribed ones, and the sequence with its rejected calls removed must be observationally identical; End on runs whose group key is the identity (reference dealer with a zero constant term, or cancelling the polynomial of the real participant) must fail and leave the instance not running.',
    note='n=3, t=1, reduced alphabet of 21 calls (incl. Start with a short seed), exhaustive to length 3 (4 thorough) behind 5 forced prefixes, longer sequences sampled; reuse after End excluded as the property says.'),
 
  'C01': dict(level='model_checking', design='5 C01, 4.5',
